@@ -1026,6 +1026,12 @@ def schedules_for(g, rng, tier):
             s.add("".join("1" if j == i else "0" for j in range(n)))
     while len(s) < cap:
         s.add("".join(rng.choice("01") for _ in range(n)))
+    # every subset of the yield sites INSIDE deferred calls (the other sites off), when there are few of them
+    dsites = sorted({o[1] for cl in g.dops for o in cl["ops"] if o[0] == "y"})
+    if 0 < len(dsites) <= (5 if tier == "thorough" else 3):
+        for m in range(2 ** len(dsites)):
+            on = {dsites[i] for i in range(len(dsites)) if (m >> i) & 1}
+            s.add("".join("1" if j in on else "0" for j in range(n)))
     return sorted(s), False
 
 
